@@ -140,6 +140,8 @@ def _receiver_start(text, dot_off):
                 i -= 1
             i -= 1
             continue
+        if t.kind == "id" and t.text in ("match", "if", "let", "return", "in", "else", "while", "mut", "ref", "move", "as"):
+            break
         if t.kind in ("id", "num", "str") or t.text in ("?",):
             i -= 1
             continue
@@ -297,3 +299,85 @@ def t_chunk(text):
         (r"\bwhere\s+D:[^{]*?E:[^{]*?(?=\{)", ""),
         (r"\bpub\(crate\)\s*", "pub "),
     ], text)
+
+
+@rule("R10", "Definition of `for`: `for x in E {B}` -> `let mut it_ = E; loop { let Some(x) = it_.next() else { break }; B }` "
+             "(the iterator is the prelude's specified `Split`).")
+def r10(text):
+    n = 0
+    while True:
+        m = re.search(r"\bfor\s+(\w+)\s+in\s+", text)
+        if not m:
+            break
+        # iterator expression runs to the '{' opening the loop body
+        toks = tokenize(text[m.end():])
+        j = 0
+        while toks[j].text != "{":
+            if toks[j].text in ("(", "["):
+                j = match_close(toks, j)
+            j += 1
+        brace = m.end() + toks[j].start
+        expr = text[m.end():brace].strip()
+        if expr.startswith("&mut "):
+            head = "loop { let Some(%s) = %s.next() else { break };" % (m.group(1), expr[5:].strip())
+        else:
+            head = "let mut it_ = %s; loop { let Some(%s) = it_.next() else { break };" % (expr, m.group(1))
+        text = text[:m.start()] + head + text[brace + 1:]
+        n += 1
+    return text, n
+
+
+@rule("R16", "`SmallVec<[Range<u64>; 1]>` -> `Vec<Range<u64>>`, `SmallVec::new()` -> `Vec::new()`, `.into_vec()` dropped: "
+             "a SmallVec is a Vec with inline storage (same sequence semantics).")
+def r16(text):
+    return _subn([
+        (r"SmallVec<\s*\[\s*Range<u64>\s*;\s*1\s*\]\s*>", "Vec<Range<u64>>"),
+        (r"\bSmallVec::new\(\)", "Vec::new()"),
+        (r"\.into_vec\(\)", ""),
+        (r"\bpub\(crate\)\s*", "pub "),
+    ], text)
+
+
+@rule("R19", "String slicing `&r[a..b]` -> `r.slice(a, b)`, `&r[a..]` -> `r.slice(a, r.len())` on the opaque Str: the "
+             "stub's `slice` has the precondition a <= b <= len, so slicing panics become obligations.")
+def r19(text):
+    n = 0
+    while True:
+        m = re.search(r"&(\w+)\[", text)
+        if not m:
+            break
+        o = m.end() - 1
+        toks = tokenize(text[o:])
+        c = o + toks[match_close(toks, 0)].start
+        inner = text[o + 1:c]
+        if ".." not in inner:
+            break
+        a, b = inner.split("..", 1)
+        a = a.strip() or "0"
+        b = b.strip() or "%s.len()" % m.group(1)
+        text = text[:m.start()] + "%s.slice(%s, %s)" % (m.group(1), a, b) + text[c + 1:]
+        n += 1
+    return text, n
+
+
+@rule("R20", "`u64::from_str(x)` / `u16::from_str(x)` -> prelude `u64_from_str(x)` / `u16_from_str(x)` (named function with the "
+             "std meaning, assumed contract); `X.and_then(|v| B)` -> `match X { Some(v) => B, None => None }` (definition "
+             "of Option::and_then).")
+def r20(text):
+    text, n = _subn([(r"\bu64::from_str\(", "u64_from_str("), (r"\bu16::from_str\(", "u16_from_str(")], text)
+    while True:
+        m = re.search(r"\.\s*and_then\(\s*\|\s*(\w+)\s*\|", text)
+        if not m:
+            break
+        o = text.index("(", m.start())
+        toks = tokenize(text[o:])
+        c = o + toks[match_close(toks, 0)].start
+        inner = text[m.end():c].strip()
+        rs = _receiver_start(text, m.start())
+        recv = text[rs:m.start()].rstrip()
+        rep = "(match %s { Some(%s) => %s, None => None })" % (recv, m.group(1), inner)
+        old = text[rs:c + 1]
+        rep = rep + "\n" * (old.count("\n") - rep.count("\n"))
+        text = text[:rs] + rep + text[c + 1:]
+        n += 1
+    return text, n
